@@ -269,7 +269,7 @@ func runCheck(o checkOpts) (int, *checkOutcome) {
 	known := map[string]*Finding{}
 	for i := range findings {
 		f := &findings[i]
-		if f.Property == o.prop && f.Status == "known" {
+		if f.Status == "known" {
 			known[f.Obligation] = f
 			if f.Witness != "" {
 				e, err := parseSpecExpr(f.Witness)
@@ -353,6 +353,28 @@ func runCheck(o checkOpts) (int, *checkOutcome) {
 		unanimous = true
 	}
 	results := Discharge(obls, tmp, timeout, 12, unanimous)
+	// second chance for obligations the solvers did not decide under full parallel load: run them again,
+	// two at a time, with three times the time limit (an undecided obligation is not a refutation)
+	var retryIdx []int
+	var retryObl []*Oblig
+	for i, r := range results {
+		if r.Kind != "cover" && (r.Status == "timeout" || r.Status == "unknown") && len(obls[i].disj) > 0 {
+			retryIdx = append(retryIdx, i)
+			retryObl = append(retryObl, obls[i])
+		}
+	}
+	if len(retryObl) > 0 && len(retryObl) <= 12 {
+		tmp2, _ := os.MkdirTemp("", "gowp-retry-"+o.prop+"-")
+		rr := Discharge(retryObl, tmp2, timeout*3, 2, unanimous)
+		os.RemoveAll(tmp2)
+		for k, i := range retryIdx {
+			rr[k].Ms += results[i].Ms
+			if rr[k].Status == "unsat" || rr[k].Status == "sat" {
+				rr[k].Solver += " (retry)"
+			}
+			results[i] = rr[k]
+		}
+	}
 	out.results = results
 
 	// verdicts
